@@ -395,16 +395,14 @@ pub fn c05(out: &mut Vec<String>, rng: &mut Rng, tier: &str) {
     // strictly positive *subnormal* observations (below the smallest normal float) are valid data: the
     // logarithm is an ordinary number (the harmonic mean is left out: the reciprocal of a subnormal overflows,
     // which the crate reports through InvalidInputData / non-finite statistics)
-    for (k, n) in [(0usize, 3usize), (1, 5), (2, 8)] {
+    for (k, n) in [(0usize, 3usize), (1, 5), (2, 8), (3, 4)] {
+        // one subnormal observation among ordinary ones (the geometric mean itself stays a normal number: results
+        // that are subnormal have too few significant bits for a relative comparison)
         let subs64 = [5e-324f64, 1e-310, 2.2e-308, 3e-320];
-        let xs: Vec<f64> = (0..n).map(|i| subs64[(i + k) % 4] * (1.0 + (i % 3) as f64)).collect();
-        out.push(geo_case::<f64>("C05", rand_conf(rng), &xs));
         let mut mixed: Vec<f64> = sample_pos_f64(rng, n, 8);
         mixed[k] = subs64[k];
         out.push(geo_case::<f64>("C05", rand_conf(rng), &mixed));
         let subs32 = [1e-45f32, 1e-40, 1.1e-38, 3e-42];
-        let ys: Vec<f32> = (0..n).map(|i| subs32[(i + k) % 4] * (1.0 + (i % 3) as f32)).collect();
-        out.push(geo_case::<f32>("C05", rand_conf(rng), &ys));
         let mut mixed32: Vec<f32> = mixed.iter().map(|x| *x as f32).collect();
         mixed32[k] = subs32[k];
         out.push(geo_case::<f32>("C05", rand_conf(rng), &mixed32));
